@@ -231,9 +231,15 @@ func decodeBytecodeV2(bc *Bytecode, r *bytes.Buffer) error {
 				return err
 			}
 
-			sz := obj.(ugo.Int)
+			sz, ok := obj.(ugo.Int)
+			if !ok {
+				return errors.New("invalid file set size")
+			}
 			if sz <= 0 {
 				continue
+			}
+			if int64(sz) > int64(r.Len()) {
+				return io.ErrUnexpectedEOF
 			}
 
 			data := make([]byte, sz)
@@ -252,21 +258,33 @@ func decodeBytecodeV2(bc *Bytecode, r *bytes.Buffer) error {
 				return err
 			}
 
-			bc.Main = f.(*ugo.CompiledFunction)
+			main, ok := f.(*ugo.CompiledFunction)
+			if !ok {
+				return errors.New("invalid main function")
+			}
+			bc.Main = main
 		case 2:
 			obj, err := DecodeObject(r)
 			if err != nil {
 				return err
 			}
 
-			bc.Constants = obj.(ugo.Array)
+			constants, ok := obj.(ugo.Array)
+			if !ok {
+				return errors.New("invalid constants")
+			}
+			bc.Constants = constants
 		case 3:
 			num, err := DecodeObject(r)
 			if err != nil {
 				return err
 			}
 
-			bc.NumModules = int(num.(ugo.Int))
+			n, ok := num.(ugo.Int)
+			if !ok {
+				return errors.New("invalid number of modules")
+			}
+			bc.NumModules = int(n)
 		default:
 			return errors.New("unknown field:" + strconv.Itoa(int(field)))
 		}
@@ -351,16 +369,25 @@ func DecodeObject(r io.Reader) (ugo.Object, error) {
 			return nil, errors.New("negative value")
 		}
 
-		n := 1 + len(readBytes)
-		buf := make([]byte, n+int(value))
-		buf[0] = btype
-		copy(buf[1:], readBytes)
+		// Do not trust the decoded size for allocation, it may be larger than
+		// the data available.
+		if lr, ok := r.(interface{ Len() int }); ok && value > int64(lr.Len()) {
+			return nil, io.ErrUnexpectedEOF
+		}
+
+		var objBuf bytes.Buffer
+		objBuf.WriteByte(btype)
+		objBuf.Write(readBytes)
 
 		if value > 0 {
-			if _, err = io.ReadFull(r, buf[n:]); err != nil {
+			if _, err = io.CopyN(&objBuf, r, value); err != nil {
+				if err == io.EOF {
+					err = io.ErrUnexpectedEOF
+				}
 				return nil, err
 			}
 		}
+		buf := objBuf.Bytes()
 
 		switch btype {
 		case binCompiledFunctionV1:
@@ -665,10 +692,10 @@ func (o *String) UnmarshalBinary(data []byte) error {
 		return nil
 	}
 
-	ub := 1 + offset + int(size)
-	if len(data) < ub {
+	if size > int64(len(data)-1-offset) {
 		return errors.New("invalid ugo.String data size")
 	}
+	ub := 1 + offset + int(size)
 
 	*o = String(data[1+offset : ub])
 	return nil
@@ -707,10 +734,10 @@ func (o *Bytes) UnmarshalBinary(data []byte) error {
 		return nil
 	}
 
-	ub := 1 + offset + int(size)
-	if len(data) < ub {
+	if size > int64(len(data)-1-offset) {
 		return errors.New("invalid ugo.Bytes data size")
 	}
+	ub := 1 + offset + int(size)
 
 	*o = []byte(string(data[1+offset : ub]))
 	return nil
@@ -765,10 +792,10 @@ func (o *Array) UnmarshalBinary(data []byte) error {
 	if size <= 0 {
 		return nil
 	}
-	ub := 1 + offset + int(size)
-	if len(data) < ub {
+	if size > int64(len(data)-1-offset) {
 		return errors.New("invalid ugo.Array data size")
 	}
+	ub := 1 + offset + int(size)
 
 	rd := bytes.NewReader(data[1+offset : ub])
 	var vi varintConv
@@ -777,6 +804,11 @@ func (o *Array) UnmarshalBinary(data []byte) error {
 	length, err := vi.read()
 	if err != nil {
 		return err
+	}
+
+	// every element takes at least one byte
+	if length < 0 || length > int64(rd.Len()) {
+		return errors.New("invalid ugo.Array length")
 	}
 
 	arr := make([]ugo.Object, 0, int(length))
@@ -840,7 +872,7 @@ func (o *Map) UnmarshalBinary(data []byte) error {
 		return nil
 	}
 
-	if len(data) < 1+offset+int(size) {
+	if size > int64(len(data)-1-offset) {
 		return errors.New("invalid ugo.Map data size")
 	}
 
@@ -849,6 +881,10 @@ func (o *Map) UnmarshalBinary(data []byte) error {
 	var vi varintConv
 	vi.reader = rd
 	m := *o
+	if m == nil {
+		m = Map{}
+		*o = m
+	}
 
 	for rd.Len() > 0 {
 		value, err := vi.read()
@@ -989,6 +1025,10 @@ func (o *CompiledFunction) UnmarshalBinary(data []byte) error {
 		return nil
 	}
 
+	if size > int64(len(data)-1-offset) {
+		return errors.New("invalid ugo.CompiledFunction data size")
+	}
+
 	rd := bytes.NewReader(data[1+offset : 1+offset+int(size)])
 	var vi varintConv
 	vi.reader = rd
@@ -1016,7 +1056,11 @@ func (o *CompiledFunction) UnmarshalBinary(data []byte) error {
 			if err != nil {
 				return err
 			}
-			o.Instructions = obj.(ugo.Bytes)
+			insts, ok := obj.(ugo.Bytes)
+			if !ok {
+				return errors.New("invalid ugo.CompiledFunction instructions")
+			}
+			o.Instructions = insts
 		case 3:
 			o.Variadic = true
 		case 4:
@@ -1025,6 +1069,11 @@ func (o *CompiledFunction) UnmarshalBinary(data []byte) error {
 			length, err := vi.read()
 			if err != nil {
 				return err
+			}
+
+			// every key and value takes at least one byte
+			if length < 0 || length > int64(rd.Len()) {
+				return errors.New("invalid ugo.CompiledFunction source map size")
 			}
 
 			sz := int(length / 2)
@@ -1195,6 +1244,11 @@ func (sf *SourceFile) UnmarshalBinary(data []byte) error {
 		return err
 	}
 
+	// every line offset takes at least one byte
+	if v < 0 || v > int64(rd.Len()) {
+		return errors.New("invalid number of lines")
+	}
+
 	length := int(v)
 
 	lines := make([]int, length)
@@ -1257,6 +1311,11 @@ func (sfs *SourceFileSet) UnmarshalBinary(data []byte) error {
 		return err
 	}
 
+	// every file takes at least one byte
+	if v < 0 || v > int64(rd.Len()) {
+		return errors.New("invalid number of files")
+	}
+
 	length := int(v)
 	files := make([]*parser.SourceFile, length)
 
@@ -1265,6 +1324,10 @@ func (sfs *SourceFileSet) UnmarshalBinary(data []byte) error {
 		if err != nil {
 			return err
 		}
+		if v < 0 || v > int64(rd.Len()) {
+			return io.ErrUnexpectedEOF
+		}
+
 		data := make([]byte, v)
 		if _, err = io.ReadFull(rd, data); err != nil {
 			return err
